@@ -226,6 +226,7 @@ func (srv *Srv) String() string {
 }
 
 func (req *SrvReq) process() {
+	verifPoint("process.enter", req)
 	req.Lock()
 	flushed := (req.status & reqFlush) != 0
 	if !flushed {
@@ -233,6 +234,7 @@ func (req *SrvReq) process() {
 	}
 	req.Unlock()
 
+	verifPoint("process.checked", req)
 	if flushed {
 		req.Respond()
 	}
@@ -243,6 +245,7 @@ func (req *SrvReq) process() {
 		req.Process()
 	}
 
+	verifPoint("process.done", req)
 	req.Lock()
 	req.status &= ^reqWork
 	if req.status&reqResponded == 0 {
@@ -373,6 +376,7 @@ func (req *SrvReq) PostProcess() {
 func (req *SrvReq) Respond() {
 	var flushreqs *SrvReq
 
+	verifPoint("respond.enter", req)
 	conn := req.Conn
 	req.Lock()
 	status := req.status
@@ -410,16 +414,19 @@ func (req *SrvReq) Respond() {
 	}
 	conn.Unlock()
 
+	verifPoint("respond.unlinked", req)
 	if rop, ok := (req.Conn.Srv.ops).(SrvReqProcessOps); ok {
 		rop.SrvReqRespond(req)
 	} else {
 		req.PostProcess()
 	}
 
+	verifPoint("respond.posted", req)
 	if (status & reqFlush) == 0 {
 		conn.reqout <- req
 	}
 
+	verifPoint("respond.queued", req)
 	// process the next request with the same tag (if available)
 	if nextreq != nil {
 		go nextreq.process()
